@@ -28,6 +28,7 @@ CONSTANTS
   EqWrongs <- EW_all
   CallKinds <- Calls_none
   MaxCalls = 0
+  Laws = {"mass"}
 INVARIANT RegistryIndependent
 INVARIANT WrittenIsPhysical
 INVARIANT RefusedOnlyIfWrongDimension
